@@ -1159,9 +1159,58 @@ typedef Cfg<CK_EQ, 2, true, int, ST> Cfg8;
 typedef Cfg<CK_ED, 0, false, std::string, MT, true> Cfg9;
 enum { NCFG = 10 };
 
+// ------------------------------------------------------------------ value category selects the prototype
+// Prototype lists in which a non-const lvalue-reference prototype is listed BEFORE a prototype that accepts the same type by value
+// (or a wider type): a modifiable lvalue argument must select the reference prototype (and can be changed in place by its callbacks),
+// a temporary / const argument the other one.  Run next to every generated case (cheap, independent of the configuration).
+static void refPrototypeScenario(Rng & rng)
+{
+	// (the callbacks of the by-value prototype take std::string &&: a callback taking std::string by value would also be callable with
+	// std::string & and be bound to the FIRST prototype it fits)
+	std::vector<std::string> trace, want;
+	const int n0 = 1 + (int)rng.below(3), n1 = 1 + (int)rng.below(3);
+	const std::string orig = "t" + num((long long)rng.below(1000)) + std::string(rng.below(40), 'x');
+	{
+		typedef eventpp::HeterCallbackList<eventpp::HeterTuple<void(std::string &), void(std::string)> > L;
+		L l;
+		for(int i = 0; i < n0; ++i) l.append([&trace, i](std::string & s) { trace.push_back("ref" + num(i) + ":" + s); s += "+"; });
+		for(int i = 0; i < n1; ++i) l.append([&trace, i](std::string && s) { trace.push_back("val" + num(i) + ":" + s); });
+		std::string text = orig;
+		l(text); // modifiable lvalue
+		std::string cur = orig;
+		for(int i = 0; i < n0; ++i) { want.push_back("ref" + num(i) + ":" + cur); cur += "+"; }
+		if(text != cur && ! caseHasViolation()) violation("route:lvalue-argument-not-modified-through-reference-prototype", "HeterCallbackList<void(std::string&),void(std::string)> invoked with a modifiable lvalue: the argument reads '" + text + "' afterwards, the " + num(n0) + " callbacks of the reference prototype should have made it '" + cur + "'");
+		l(std::string(orig)); // temporary
+		const std::string c = orig;
+		l(c); // const lvalue
+		for(int k = 0; k < 2; ++k) for(int i = 0; i < n1; ++i) want.push_back("val" + num(i) + ":" + orig);
+	}
+	{
+		typedef eventpp::HeterEventDispatcher<int, eventpp::HeterTuple<void(std::string &), void(std::string)> > D;
+		D d;
+		for(int i = 0; i < n0; ++i) d.appendListener(5, [&trace, i](std::string & s) { trace.push_back("dref" + num(i) + ":" + s); s += "-"; });
+		for(int i = 0; i < n1; ++i) d.appendListener(5, [&trace, i](std::string && s) { trace.push_back("dval" + num(i) + ":" + s); });
+		std::string text = orig;
+		d.dispatch(5, text);
+		std::string cur = orig;
+		for(int i = 0; i < n0; ++i) { want.push_back("dref" + num(i) + ":" + cur); cur += "-"; }
+		if(text != cur && ! caseHasViolation()) violation("route:lvalue-argument-not-modified-through-reference-prototype", "HeterEventDispatcher<void(std::string&),void(std::string)> dispatched with a modifiable lvalue: it reads '" + text + "' afterwards, expected '" + cur + "'");
+		d.dispatch(5, std::string(orig));
+		for(int i = 0; i < n1; ++i) want.push_back("dval" + num(i) + ":" + orig);
+	}
+	if(trace != want && ! caseHasViolation()) {
+		std::string a, b;
+		for(size_t i = 0; i < trace.size(); ++i) a += trace[i] + " ";
+		for(size_t i = 0; i < want.size(); ++i) b += want[i] + " ";
+		violation("route:value-category-selects-wrong-prototype", "prototype list with a non-const reference prototype listed before a by-value one: calls [" + a + "] expected [" + b + "]");
+	}
+	count("ref_prototype_scenarios");
+}
+
 static void runCase(uint64_t caseNo, Rng & rng)
 {
 	static Mode mode = modeOf(ctx().mode);
+	{ Rng r2(mix(ctx().curSeed, 0x5eedULL)); refPrototypeScenario(r2); }
 	long long only = ctx().optInt("cfg", -1);
 	int cfg = only >= 0 ? (int)only : (int)(caseNo % NCFG);
 	// VF_CFG_MASK: build only a subset of the configurations (parallel compilation); other cases are skipped
